@@ -28,3 +28,182 @@ package matcher
 //@ func (optsEnd).Match
 //@   requires ctx: c != nil
 //@   ensures ok: result0 && result1 == args && c.RejectOptions
+
+// --- option matcher ------------------------------------------------------------------------------------------------
+// Vocabulary (DESIGN.md section 4.3 and appendix A). D/V are the domain and the content of the name table,
+// HV is the heap column Container.Value; they are passed explicitly so that the spec functions are state-free.
+
+// cls, spelled as functions of the token vector (appendix A of DESIGN.md). X = (D, V, HV, one).
+//@ pure func lName(a string) string = idx_byte(a, '=') < 0 ? a : a[:idx_byte(a, '=')]
+//@ pure func longMatched(args []string, i int, D set[string], V array[string]*container.Container, HV array[*container.Container]any, one *container.Container) bool =
+//@     (lName(args[i]) in D) && V[lName(args[i])] == one &&
+//@     (idx_byte(args[i], '=') >= 0 ? args[i][idx_byte(args[i], '=')+1:] != "" :
+//@      (isBool(HV[V[lName(args[i])]]) || (i+1 < len(args) && !hasPrefix(args[i+1], "-"))))
+//@ pure func longConsumed(args []string, i int, D set[string], V array[string]*container.Container, HV array[*container.Container]any, one *container.Container) int =
+//@     !(lName(args[i]) in D) ? 0 :
+//@     idx_byte(args[i], '=') >= 0 ? (V[lName(args[i])] != one ? 1 : (args[i][idx_byte(args[i], '=')+1:] == "" ? 0 : 1)) :
+//@     isBool(HV[V[lName(args[i])]]) ? 1 :
+//@     !(i+1 < len(args)) ? 0 : V[lName(args[i])] != one ? 2 : hasPrefix(args[i+1], "-") ? 0 : 2
+//@ pure func longVal(args []string, i int, V array[string]*container.Container, HV array[*container.Container]any) string =
+//@     idx_byte(args[i], '=') >= 0 ? args[i][idx_byte(args[i], '=')+1:] : isBool(HV[V[lName(args[i])]]) ? "true" : args[i+1]
+//@ pure func longRem(args []string, i int, V array[string]*container.Container, HV array[*container.Container]any) []string =
+//@     (idx_byte(args[i], '=') >= 0 || isBool(HV[V[lName(args[i])]])) ? args[:i] ++ args[i+1:] : args[:i] ++ args[i+2:]
+
+//@ func (*opt).matchLongOpt
+//@   requires wf: o != nil && o.index != nil && c != nil && c.Opts != nil && 0 <= idx && idx < len(args)
+//@   requires table: forall n string :: n in o.index ==> o.index[n] != nil
+//@   let a = args[idx]
+//@   let eq = idx_byte(a, '=')
+//@   let name = eq < 0 ? a : a[:eq]
+//@   let declared = name in o.index
+//@   let oc = o.index[name]
+//@   let own = oc == o.theOne
+//@   let flag = isBool(oc.Value)
+//@   let hasNext = idx+1 < len(args)
+//@   ensures undeclared: !declared ==> !result0 && result1 == 0
+//@   ensures eq-other: declared && eq >= 0 && !own ==> !result0 && result1 == 1
+//@   ensures eq-empty: declared && eq >= 0 && own && a[eq+1:] == "" ==> !result0 && result1 == 0
+//@   ensures eq-own: declared && eq >= 0 && own && a[eq+1:] != "" ==> result0 && result1 == 1 &&
+//@       result2 == args[:idx] ++ args[idx+1:] && c.Opts[o.theOne] == old(c.Opts[o.theOne]) ++ seq(a[eq+1:])
+//@   ensures flag-other: declared && eq < 0 && flag && !own ==> !result0 && result1 == 1
+//@   ensures flag-own: declared && eq < 0 && flag && own ==> result0 && result1 == 1 &&
+//@       result2 == args[:idx] ++ args[idx+1:] && c.Opts[o.theOne] == old(c.Opts[o.theOne]) ++ seq("true")
+//@   ensures val-nonext: declared && eq < 0 && !flag && !hasNext ==> !result0 && result1 == 0
+//@   ensures val-other: declared && eq < 0 && !flag && hasNext && !own ==> !result0 && result1 == 2
+//@   ensures val-dash: declared && eq < 0 && !flag && hasNext && own && hasPrefix(args[idx+1], "-") ==> !result0 && result1 == 0
+//@   ensures val-own: declared && eq < 0 && !flag && hasNext && own && !hasPrefix(args[idx+1], "-") ==> result0 && result1 == 2 &&
+//@       result2 == args[:idx] ++ args[idx+2:] && c.Opts[o.theOne] == old(c.Opts[o.theOne]) ++ seq(args[idx+1])
+//@   ensures nomatch: !result0 ==> result2 == args && unchanged(c.Opts)
+//@   ensures frame: result0 ==> frame(c.Opts[o.theOne]) && (o.theOne in c.Opts)
+//@   ensures fn: result0 == longMatched(args, idx, domOf(o.index), valOf(o.index), fieldHeap(o.theOne.Value), o.theOne) &&
+//@       result1 == longConsumed(args, idx, domOf(o.index), valOf(o.index), fieldHeap(o.theOne.Value), o.theOne) &&
+//@       (result0 ==> result2 == longRem(args, idx, valOf(o.index), fieldHeap(o.theOne.Value)) &&
+//@                    c.Opts[o.theOne] == old(c.Opts[o.theOne]) ++ seq(longVal(args, idx, valOf(o.index), fieldHeap(o.theOne.Value))))
+
+//@ pure func declaredAt(rem string, j int, D set[string]) bool = ("-" + rem[j:j+1]) in D
+//@ pure func optAt(rem string, j int, V array[string]*container.Container) *container.Container = V[("-" + rem[j:j+1])]
+//@ pure func flagAt(rem string, j int, V array[string]*container.Container, HV array[*container.Container]any) bool = isBool(HV[optAt(rem, j, V)])
+//@ pure func skipAt(rem string, j int, D set[string], V array[string]*container.Container, HV array[*container.Container]any, one *container.Container) bool =
+//@     declaredAt(rem, j, D) && flagAt(rem, j, V, HV) && optAt(rem, j, V) != one
+//@ pure rec func firstStop(rem string, j int, D set[string], V array[string]*container.Container, HV array[*container.Container]any, one *container.Container) int =
+//@     j >= len(rem) ? len(rem) : (skipAt(rem, j, D, V, HV, one) ? firstStop(rem, j+1, D, V, HV, one) : j)
+
+
+//@ pure func sIsEq(a string) bool = len(a) >= 3 && a[2] == '='
+//@ pure func sOwnEq(a string, D set[string], V array[string]*container.Container, one *container.Container) bool = (a[0:2] in D ? V[a[0:2]] : nil) == one
+//@ pure func sP(a string, D set[string], V array[string]*container.Container, HV array[*container.Container]any, one *container.Container) int = firstStop(a[1:], 0, D, V, HV, one)
+//@ pure func sNewRem(a string, p int) string = a[1:][:p] + a[1:][p+1:]
+//@ pure func shortMatched(args []string, i int, D set[string], V array[string]*container.Container, HV array[*container.Container]any, one *container.Container) bool =
+//@     len(args[i]) >= 2 &&
+//@     (sIsEq(args[i]) ? (sOwnEq(args[i], D, V, one) && args[i][3:] != "") :
+//@      (sP(args[i], D, V, HV, one) < len(args[i][1:]) && declaredAt(args[i][1:], sP(args[i], D, V, HV, one), D) &&
+//@       optAt(args[i][1:], sP(args[i], D, V, HV, one), V) == one &&
+//@       (flagAt(args[i][1:], sP(args[i], D, V, HV, one), V, HV) || args[i][1:][sP(args[i], D, V, HV, one)+1:] != "" ||
+//@        (i+1 < len(args) && !hasPrefix(args[i+1], "-")))))
+//@ pure func shortConsumed(args []string, i int, D set[string], V array[string]*container.Container, HV array[*container.Container]any, one *container.Container) int =
+//@     len(args[i]) < 2 ? 0 :
+//@     sIsEq(args[i]) ? (!sOwnEq(args[i], D, V, one) ? 1 : (args[i][3:] == "" ? 0 : 1)) :
+//@     sP(args[i], D, V, HV, one) == len(args[i][1:]) ? 1 :
+//@     !declaredAt(args[i][1:], sP(args[i], D, V, HV, one), D) ? 0 :
+//@     flagAt(args[i][1:], sP(args[i], D, V, HV, one), V, HV) ? (sNewRem(args[i], sP(args[i], D, V, HV, one)) == "" ? 1 : 0) :
+//@     args[i][1:][sP(args[i], D, V, HV, one)+1:] != "" ?
+//@        (optAt(args[i][1:], sP(args[i], D, V, HV, one), V) == one ? (sP(args[i], D, V, HV, one) == 0 ? 1 : 0) : 1) :
+//@     !(i+1 < len(args)) ? 0 :
+//@     optAt(args[i][1:], sP(args[i], D, V, HV, one), V) != one ? 2 :
+//@     hasPrefix(args[i+1], "-") ? 0 : (sP(args[i], D, V, HV, one) == 0 ? 2 : 1)
+//@ pure func shortVal(args []string, i int, D set[string], V array[string]*container.Container, HV array[*container.Container]any, one *container.Container) string =
+//@     sIsEq(args[i]) ? args[i][3:] :
+//@     flagAt(args[i][1:], sP(args[i], D, V, HV, one), V, HV) ? "true" :
+//@     args[i][1:][sP(args[i], D, V, HV, one)+1:] != "" ? args[i][1:][sP(args[i], D, V, HV, one)+1:] : args[i+1]
+//@ pure func shortRem(args []string, i int, D set[string], V array[string]*container.Container, HV array[*container.Container]any, one *container.Container) []string =
+//@     sIsEq(args[i]) ? args[:i] ++ args[i+1:] :
+//@     flagAt(args[i][1:], sP(args[i], D, V, HV, one), V, HV) ?
+//@        (sNewRem(args[i], sP(args[i], D, V, HV, one)) == "" ? args[:i] ++ args[i+1:] : upd(args, i, "-" + sNewRem(args[i], sP(args[i], D, V, HV, one)))) :
+//@     args[i][1:][sP(args[i], D, V, HV, one)+1:] != "" ?
+//@        (sP(args[i], D, V, HV, one) == 0 ? args[:i] ++ args[i+1:] : upd(args, i, "-" + args[i][1:][:sP(args[i], D, V, HV, one)])) :
+//@     (sP(args[i], D, V, HV, one) == 0 ? args[:i] ++ args[i+2:] : (args[:i] ++ seq("-" + args[i][1:][:sP(args[i], D, V, HV, one)])) ++ args[i+2:])
+
+//@ func (*opt).matchShortOpt
+//@   requires wf: o != nil && o.index != nil && c != nil && c.Opts != nil && 0 <= idx && idx < len(args)
+//@   requires table: forall n string :: n in o.index ==> o.index[n] != nil
+//@   let a = args[idx]
+//@   let D = domOf(o.index)
+//@   let V = valOf(o.index)
+//@   let HV = fieldHeap(o.theOne.Value)
+//@   let one = o.theOne
+//@   let isEq = len(a) >= 3 && a[2] == '='
+//@   let ownEq = o.index[a[0:2]] == o.theOne
+//@   let r = a[1:]
+//@   let p = firstStop(a[1:], 0, domOf(o.index), valOf(o.index), fieldHeap(o.theOne.Value), o.theOne)
+//@   let walk = len(a) >= 2 && !isEq
+//@   let decl = declaredAt(r, p, D)
+//@   let own = optAt(r, p, V) == o.theOne
+//@   let flag = flagAt(r, p, V, HV)
+//@   let rest = r[p+1:]
+//@   let hasNext = idx+1 < len(args)
+//@   ensures short: len(a) < 2 ==> !result0 && result1 == 0
+//@   ensures eq-other: len(a) >= 2 && isEq && !ownEq ==> !result0 && result1 == 1
+//@   ensures eq-empty: len(a) >= 2 && isEq && ownEq && a[3:] == "" ==> !result0 && result1 == 0
+//@   ensures eq-own: len(a) >= 2 && isEq && ownEq && a[3:] != "" ==> result0 && result1 == 1 &&
+//@       result2 == args[:idx] ++ args[idx+1:] && c.Opts[o.theOne] == old(c.Opts[o.theOne]) ++ seq(a[3:])
+//@   ensures all-flags: walk && p == len(r) ==> !result0 && result1 == 1
+//@   ensures undeclared: walk && p < len(r) && !decl ==> !result0 && result1 == 0
+//@   ensures flag-own-last: walk && p < len(r) && decl && flag && r[:p] + r[p+1:] == "" ==> result0 && result1 == 1 &&
+//@       result2 == args[:idx] ++ args[idx+1:] && c.Opts[o.theOne] == old(c.Opts[o.theOne]) ++ seq("true")
+//@   ensures flag-own-fold: walk && p < len(r) && decl && flag && r[:p] + r[p+1:] != "" ==> result0 && result1 == 0 &&
+//@       result2 == upd(args, idx, "-" + (r[:p] + r[p+1:])) && c.Opts[o.theOne] == old(c.Opts[o.theOne]) ++ seq("true")
+//@   ensures attached-other: walk && p < len(r) && decl && !flag && rest != "" && !own ==> !result0 && result1 == 1
+//@   ensures attached-own-first: walk && p < len(r) && decl && !flag && rest != "" && own && p == 0 ==> result0 && result1 == 1 &&
+//@       result2 == args[:idx] ++ args[idx+1:] && c.Opts[o.theOne] == old(c.Opts[o.theOne]) ++ seq(rest)
+//@   ensures attached-own-fold: walk && p < len(r) && decl && !flag && rest != "" && own && p > 0 ==> result0 && result1 == 0 &&
+//@       result2 == upd(args, idx, "-" + r[:p]) && c.Opts[o.theOne] == old(c.Opts[o.theOne]) ++ seq(rest)
+//@   ensures sep-nonext: walk && p < len(r) && decl && !flag && rest == "" && !hasNext ==> !result0 && result1 == 0
+//@   ensures sep-other: walk && p < len(r) && decl && !flag && rest == "" && hasNext && !own ==> !result0 && result1 == 2
+//@   ensures sep-dash: walk && p < len(r) && decl && !flag && rest == "" && hasNext && own && hasPrefix(args[idx+1], "-") ==> !result0 && result1 == 0
+//@   ensures sep-own-first: walk && p < len(r) && decl && !flag && rest == "" && hasNext && own && !hasPrefix(args[idx+1], "-") && p == 0 ==>
+//@       result0 && result1 == 2 && result2 == args[:idx] ++ args[idx+2:] && c.Opts[o.theOne] == old(c.Opts[o.theOne]) ++ seq(args[idx+1])
+//@   ensures sep-own-fold: walk && p < len(r) && decl && !flag && rest == "" && hasNext && own && !hasPrefix(args[idx+1], "-") && p > 0 ==>
+//@       result0 && result1 == 1 && result2 == (args[:idx] ++ seq("-" + r[:p])) ++ args[idx+2:] && c.Opts[o.theOne] == old(c.Opts[o.theOne]) ++ seq(args[idx+1])
+//@   ensures nomatch: !result0 ==> result2 == args && unchanged(c.Opts)
+//@   ensures frame: result0 ==> frame(c.Opts[o.theOne]) && (o.theOne in c.Opts)
+//@   ensures fn: result0 == shortMatched(args, idx, D, V, HV, one) && result1 == shortConsumed(args, idx, D, V, HV, one) &&
+//@       (result0 ==> result2 == shortRem(args, idx, D, V, HV, one) &&
+//@                    c.Opts[o.theOne] == old(c.Opts[o.theOne]) ++ seq(shortVal(args, idx, D, V, HV, one)))
+//@   loop 1 invariant bounds: 0 <= remIdx && remIdx <= len(rem) && rem == r
+//@   loop 1 invariant prefix: firstStop(r, remIdx, D, V, HV, one) == p
+//@   loop 1 decreases len(rem) - remIdx
+
+// --- the option scan (C01, C11): the matcher of `one` walks the leading run of option occurrences -------------------
+//@ pure func tokKind(a string) int = (a == "-" || a == "--") ? 0 : hasPrefix(a, "--") ? 2 : hasPrefix(a, "-") ? 1 : 0
+//@ pure func tokMatched(args []string, i int, D set[string], V array[string]*container.Container, HV array[*container.Container]any, one *container.Container) bool =
+//@     tokKind(args[i]) == 2 ? longMatched(args, i, D, V, HV, one) : (tokKind(args[i]) == 1 && shortMatched(args, i, D, V, HV, one))
+//@ pure func tokConsumed(args []string, i int, D set[string], V array[string]*container.Container, HV array[*container.Container]any, one *container.Container) int =
+//@     tokKind(args[i]) == 2 ? longConsumed(args, i, D, V, HV, one) : tokKind(args[i]) == 1 ? shortConsumed(args, i, D, V, HV, one) : 0
+//@ pure func tokVal(args []string, i int, D set[string], V array[string]*container.Container, HV array[*container.Container]any, one *container.Container) string =
+//@     tokKind(args[i]) == 2 ? longVal(args, i, V, HV) : shortVal(args, i, D, V, HV, one)
+//@ pure func tokRem(args []string, i int, D set[string], V array[string]*container.Container, HV array[*container.Container]any, one *container.Container) []string =
+//@     tokKind(args[i]) == 2 ? longRem(args, i, V, HV) : shortRem(args, i, D, V, HV, one)
+// scanPos: index of the first own occurrence reachable by skipping whole occurrences of other declared options, or -1
+//@ pure rec func scanPos(args []string, i int, D set[string], V array[string]*container.Container, HV array[*container.Container]any, one *container.Container) int =
+//@     (i < 0 || i >= len(args)) ? -1 :
+//@     tokMatched(args, i, D, V, HV, one) ? i :
+//@     tokConsumed(args, i, D, V, HV, one) <= 0 ? -1 : scanPos(args, i + tokConsumed(args, i, D, V, HV, one), D, V, HV, one)
+
+//@ func (*opt).Match
+//@   requires wf: o != nil && o.index != nil && o.theOne != nil && c != nil && c.Opts != nil
+//@   requires table: forall n string :: n in o.index ==> o.index[n] != nil
+//@   let D = domOf(o.index)
+//@   let V = valOf(o.index)
+//@   let HV = fieldHeap(o.theOne.Value)
+//@   let one = o.theOne
+//@   let off = len(args) == 0 || c.RejectOptions
+//@   let k = scanPos(args, 0, domOf(o.index), valOf(o.index), fieldHeap(o.theOne.Value), o.theOne)
+//@   ensures absent: (off || k < 0) ==> result0 == o.theOne.ValueSetFromEnv && result1 == args && unchanged(c.Opts)
+//@   ensures found: !off && k >= 0 ==> result0
+//@   ensures found-rem: !off && k >= 0 ==> result1 == tokRem(args, k, D, V, HV, one)
+//@   ensures found-bind: !off && k >= 0 ==> c.Opts[o.theOne] == old(c.Opts[o.theOne]) ++ seq(tokVal(args, k, D, V, HV, one))
+//@   ensures found-frame: !off && k >= 0 ==> frame(c.Opts[o.theOne]) && (o.theOne in c.Opts)
+//@   loop 1 invariant bounds: 0 <= idx && idx <= len(args) && args == args0 && !off
+//@   loop 1 invariant scan: scanPos(args, idx, D, V, HV, one) == k
+//@   loop 1 invariant untouched: unchanged(c.Opts)
+//@   loop 1 decreases len(args) - idx
